@@ -388,6 +388,40 @@ def Sk.inflatedAbundances (s src : Sk) : Except Err (List Nat × Nat) := do
     let r := (inflateWalk s.mins (src.mins.zip ab)).map Prod.snd
     pure (r, r.foldl (· + ·) 0)
 
+/-! ### the C API wrappers that do more than forward (src/core/src/ffi/minhash.rs)
+
+`kmerminhash_merge`, `_add_from`, `_remove_from`, `_remove_many`, `_add_many`, `_count_common`,
+`_add_hash_with_abundance`, `_is_compatible` hand their arguments to the method of the same name
+(`merge`, `addFrom`, … above, vector type); the three below add steps of their own. -/
+
+/-- `clear`: hashes and abundances emptied, every parameter — `max_hash` included — kept -/
+def Sk.clear (s : Sk) : Sk := { s with mins := [], abunds := s.abunds.map (fun _ => []) }
+
+/-- `kmerminhash_intersection`: `mh.intersection(other)?`, then a `clone()` of `mh`, `clear()`ed and
+filled with the common hashes by `add_many`; the result is returned as a new sketch. -/
+def capiIntersection (a b : Sk) : Except Err Sk := do
+  let r ← intersection .vec a b
+  pure (a.clear.addMany .vec r.1)
+
+/-- `kmerminhash_intersection_union_size`: `if let Ok(..) = mh.intersection_size(other)`, otherwise
+`*union_size = 0; Ok(0)` — the compatibility error is swallowed. -/
+def capiIntersectionUnionSize (a b : Sk) : Nat × Nat :=
+  match intersectionSize .vec a b with
+  | .ok r => r
+  | .error _ => (0, 0)
+
+/-- order of `(u64, u64)` tuples (`pairs.sort_unstable()`) -/
+def pairLe (p q : Nat × Nat) : Bool := p.1 < q.1 || (p.1 == q.1 && p.2 ≤ q.2)
+def insertPair (p : Nat × Nat) : List (Nat × Nat) → List (Nat × Nat)
+  | [] => [p]
+  | q :: t => if pairLe p q then p :: q :: t else q :: insertPair p t
+def sortPairs (l : List (Nat × Nat)) : List (Nat × Nat) := l.foldr insertPair []
+
+/-- `kmerminhash_set_abundances`: the (hash, abundance) pairs sorted, `clear()` if asked for, then
+`add_many_with_abund`. -/
+def capiSetAbundances (s : Sk) (ps : List (Nat × Nat)) (clear : Bool) : Sk :=
+  (if clear then s.clear else s).addManyAb .vec (sortPairs ps)
+
 /-! ### `calculate_gather_stats` (index/mod.rs): the part that depends on downsampling the match -/
 
 /-- the integer data behind the fields that involve the (downsampled) match: every `f_*` field is
